@@ -158,7 +158,9 @@ pub fn gen_map(rng: &mut Rng, o: &GenOpts) -> String {
         } else if h && rng.chance(1, 5) {
             rng.pick(&["-100000", "NaN", "-1", "-0.5", "0"]).to_string()
         } else {
-            rng.pick(&["-100", "-50", "-200", "-133.333333333333", "-80", "-66.6666666666667", "-125"]).to_string()
+            // (the last four: velocities that differ from a neighbour's by about 1e-7 - different values, not repeats)
+            rng.pick(&["-100", "-50", "-200", "-133.333333333333", "-80", "-66.6666666666667", "-125", "-100", "-50",
+                       "-99.99999", "-100.00001", "-50.000004", "-100.0000003"]).to_string()
         };
         let full = rng.chance(5, 6);
         let mut l = format!("{t},{bl}");
@@ -182,7 +184,7 @@ pub fn gen_map(rng: &mut Rng, o: &GenOpts) -> String {
         s.push('\n');
     }
     s.push_str("\n[Colours]\n");
-    for i in 1..=rng.below(4) {
+    for i in 1..=*rng.pick(&[0usize, 1, 2, 3, 3, 8, 9, 13]) {
         s.push_str(&format!("Combo{i} : {},{},{}\n", rng.below(256), rng.below(256), rng.below(256)));
     }
     if rng.chance(1, 2) {
